@@ -1,6 +1,6 @@
 """C16 - FST translation is the transduction relation; FST operations compose relations."""
 import random
-from vf import core, extract
+from vf import core, extract, values
 from vf.gen import fst as gfst
 from vf.gen import fa as gfa
 from vf.ref import fst as rf
@@ -64,7 +64,7 @@ def judge_translate(f, ref, w, sub="translate", extra_tags=()):
     got = []
     try:
         with core.step_budget(budget):
-            for o in f.translate(list(w)):
+            for o in f.translate(values.word_form(w, len(w) + len(exp))):
                 got.append(tuple(o))
     except core.StepBudgetExceeded:
         core.report(PROP, sub, "step-budget-exceeded", {"word": list(w), "partial": [list(x) for x in got[:3]]}, tags)
